@@ -1536,3 +1536,23 @@ M("C11-benign-cast-loop-own-counter", "C11", "src/interrogate/interfaceMaker.cxx
   "  for (mi = 0; mi < num_casts; mi++) {\n    function = record_function(itype, itype.get_cast(mi));",
   "  for (int ki = 0; ki < num_casts; ki++) {\n    function = record_function(itype, itype.get_cast(ki));",
   benign=True)
+
+# ---------------------------------------------------------------- R10.8 (seed S6-C10)
+M("C10-inherited-virtual-destructor-dropped", "C10", "src/cppparser/cppStructType.cxx",
+  "      CPPInstance *destructor = get_destructor();\n      if (destructor != nullptr) {\n        // It's a match!  This destructor is virtual.\n        funcs.erase(vfi);\n",
+  "      funcs.erase(vfi);\n      CPPInstance *destructor = get_destructor();\n      if (destructor != nullptr) {\n        // It's a match!  This destructor is virtual.\n",
+  expect="R10.8|get_virtual_funcs|erase#")
+M("C10-benign-mark-before-erase", "C10", "src/cppparser/cppStructType.cxx",
+  "        funcs.erase(vfi);\n        destructor->_storage_class |=\n          (CPPInstance::SC_virtual | CPPInstance::SC_inherited_virtual);",
+  "        destructor->_storage_class |=\n          (CPPInstance::SC_virtual | CPPInstance::SC_inherited_virtual);\n        funcs.erase(vfi);",
+  benign=True)
+
+# ---------------------------------------------------------------- R06.12 (seed S6-C06)
+M("C06-find-scope-typedefs-then-one-const", "C06", "src/cppparser/cppScope.cxx",
+  "  while (type->get_subtype() == CPPDeclaration::ST_const ||\n         type->get_subtype() == CPPDeclaration::ST_typedef) {\n    if (type->as_typedef_type() != nullptr) {\n      type = type->as_typedef_type()->_type;\n    } else {\n      type = type->as_const_type()->_wrapped_around;\n    }\n  }",
+  "  while (type->get_subtype() == CPPDeclaration::ST_typedef) {\n    type = type->as_typedef_type()->_type;\n  }\n  if (type->get_subtype() == CPPDeclaration::ST_const) {\n    type = type->as_const_type()->_wrapped_around;\n  }",
+  expect="R06.12|CPPScope::find_scope(4)")
+M("C06-benign-find-scope-const-first", "C06", "src/cppparser/cppScope.cxx",
+  "  while (type->get_subtype() == CPPDeclaration::ST_const ||\n         type->get_subtype() == CPPDeclaration::ST_typedef) {\n    if (type->as_typedef_type() != nullptr) {\n      type = type->as_typedef_type()->_type;\n    } else {\n      type = type->as_const_type()->_wrapped_around;\n    }\n  }",
+  "  while (type->get_subtype() == CPPDeclaration::ST_typedef ||\n         type->get_subtype() == CPPDeclaration::ST_const) {\n    if (type->as_const_type() != nullptr) {\n      type = type->as_const_type()->_wrapped_around;\n    } else {\n      type = type->as_typedef_type()->_type;\n    }\n  }",
+  benign=True)
